@@ -74,3 +74,67 @@ package protocol
 //@     invariant b[0] == '/'
 //@     invariant forall(k, 0, len(b) - 1, !(b[k] == '/' && b[k+1] == '/'))
 //@     invariant forall(k, 0, len(b) - 2, !(b[k] == '/' && b[k+1] == '.' && b[k+2] == '/'))
+
+// ---- query-string and cookie scanners (C03: no panics for any input) ----
+
+//@ func decodeArgAppend(dst, src) r
+//@   props C03
+//@   alias dst
+//@   modifies spare(dst)
+//@   allocates
+//@   ensures extends(r, dst) && spareOnly(dst)
+//@   loop 0:
+//@     invariant 0 <= i && i <= len(src)
+//@     invariant extends(dst, old(dst)) && spareOnly(old(dst))
+
+//@ func decodeCookieArg(dst, src, skipQuotes) r
+//@   props C03
+//@   modifies mem
+//@   allocates
+
+//@ func getCookieKey(dst, src) r
+//@   props C03
+//@   modifies mem
+//@   allocates
+
+//@ func argsScanner.next(s, kv) r
+//@   props C03
+//@   requires kv != nil
+//@   modifies kv.key, kv.value, kv.noValue, s.b, mem
+//@   allocates
+//@   loop 0:
+//@     invariant 0 <= k && k <= rangeindex + 1
+
+//@ func cookieScanner.next(s, kv) r
+//@   props C03
+//@   requires kv != nil
+//@   modifies kv.key, kv.value, s.b, mem
+//@   allocates
+//@   loop 0:
+//@     invariant 0 <= k && k <= rangeindex + 1
+
+//@ func allocArg(h) r, kv
+//@   props C03
+//@   modifies *
+//@   ensures kv != nil && len(r) >= 1
+
+//@ func releaseArg(h) r
+//@   props C03
+//@   requires len(h) >= 1
+
+//@ func Args.ParseBytes(a, b)
+//@   props C03
+//@   modifies *
+//@   loop 0:
+//@     invariant kv != nil && len(a.args) >= 1
+
+//@ func parseRequestCookies(cookies, src) r
+//@   props C03
+//@   modifies *
+//@   loop 0:
+//@     invariant kv != nil && len(cookies) >= 1
+
+//@ func Cookie.ParseBytes(c, src) err
+//@   props C03
+//@   witness src = "a=b; SameSite="
+//@   modifies *
